@@ -4,6 +4,7 @@
 // frames with) are plain variables set from the payload.
 #include <sys/time.h>
 #include <algorithm>
+#include <deque>
 #include <iterator>
 #include <map>
 #include <memory>
@@ -25,6 +26,8 @@
 #include "olad/PluginAdaptor.h"
 #include "olad/Port.h"
 #include "olad/Universe.h"
+#include "common/protocol/Ola.pb.h"
+#include "common/protocol/OlaService.pb.h"
 #include "olad/plugin_api/Client.h"
 #include "olad/plugin_api/UniverseStore.h"
 #include "vh.h"
@@ -34,7 +37,8 @@ using ola::TimeStamp;
 using std::string;
 using std::vector;
 
-static const unsigned int UNI = 7;
+static const unsigned int UNIS[2] = {7, 8};   // two universes sharing the clients
+static const unsigned int OTHER_UNI = 20;
 static const unsigned int NOBJ = 8;
 
 static TimeStamp ts_of(unsigned long long us) {
@@ -83,7 +87,7 @@ class FixedSS: public ola::io::SelectServerInterface {
   const TimeStamp *m_wake;
 };
 
-struct Ev { char kind; unsigned int who; string data; unsigned int prio; bool bad_uni; };
+struct Ev { char kind; unsigned int who; string data; unsigned int prio; unsigned int uni; };
 static vector<Ev> g_events;
 
 class HPort: public ola::BasicInputPort {
@@ -103,11 +107,25 @@ class HPort: public ola::BasicInputPort {
 
 class HOut: public ola::BasicOutputPort {
  public:
-  explicit HOut(unsigned int id) : ola::BasicOutputPort(NULL, id), ret(true), m_id(id) {}
+  HOut(unsigned int id, unsigned int uni) : ola::BasicOutputPort(NULL, id), ret(true), m_id(id), m_uni(uni) {}
   bool ret;  // scripted return value of WriteDMX
   string Description() const { return ""; }
   bool WriteDMX(const DmxBuffer &buffer, uint8_t priority) {
-    Ev e = {'W', m_id, buffer.Get(), priority, false};
+    Ev e = {'W', m_id, buffer.Get(), priority, m_uni};
+    g_events.push_back(e);
+    return ret;
+  }
+ private:
+  unsigned int m_id, m_uni;
+};
+
+// sink kind 1: a Client whose SendDMX is replaced (scripted return value)
+class HClient: public ola::Client {
+ public:
+  explicit HClient(unsigned int id) : ola::Client(NULL, ola::rdm::UID(0, id)), ret(true), m_id(id) {}
+  bool ret;  // scripted return value of SendDMX
+  bool SendDMX(unsigned int universe, uint8_t priority, const DmxBuffer &buffer) {
+    Ev e = {'S', m_id, buffer.Get(), priority, universe};
     g_events.push_back(e);
     return ret;
   }
@@ -115,15 +133,28 @@ class HOut: public ola::BasicOutputPort {
   unsigned int m_id;
 };
 
-class HClient: public ola::Client {
+// sink kind 2 ("rc" cases): the REAL ola::Client::SendDMX / SendDMXCallback on top of a stub that
+// behaves like the RPC channel: the request goes out at once, the completion callback runs only
+// when the ack arrives (op "ack"), possibly never.
+class DeferredStub: public ola::proto::OlaClientService_Stub {
  public:
-  explicit HClient(unsigned int id) : ola::Client(NULL, ola::rdm::UID(0, id)), ret(true), m_id(id) {}
-  bool ret;  // scripted return value of SendDMX
-  bool SendDMX(unsigned int universe, uint8_t priority, const DmxBuffer &buffer) {
-    Ev e = {'S', m_id, buffer.Get(), priority, universe != UNI};
+  explicit DeferredStub(unsigned int id) : ola::proto::OlaClientService_Stub(NULL), m_id(id) {}
+  void UpdateDmxData(ola::rpc::RpcController*, const ola::proto::DmxData *request, ola::proto::Ack*,
+                     ola::rpc::RpcService::CompletionCallback *done) {
+    Ev e = {'S', m_id, request->data(), static_cast<unsigned int>(request->priority()),
+            static_cast<unsigned int>(request->universe())};
     g_events.push_back(e);
-    return ret;
+    pending.push_back(done);
   }
+  void Deliver(unsigned int n) {   // n == 0: all
+    unsigned int todo = n ? n : pending.size();
+    while (todo-- && !pending.empty()) {
+      ola::rpc::RpcService::CompletionCallback *cb = pending.front();
+      pending.pop_front();
+      cb->Run();
+    }
+  }
+  std::deque<ola::rpc::RpcService::CompletionCallback*> pending;
  private:
   unsigned int m_id;
 };
@@ -146,112 +177,139 @@ static string handle_tv(const vector<string> &a) {
 
 static string handle(const string &payload) {
   if (payload.compare(0, 3, "tv ") == 0) return handle_tv(vh::split(payload));
+  vector<string> toks = vh::split(payload);
+  const bool real_clients = !toks.empty() && toks[0] == "rc";
+  const bool two = payload.find('@') != string::npos;
   FixedClock clock;
   TimeStamp wake;
   FixedSS ss(&wake);
   ola::PluginAdaptor pa(NULL, &ss, NULL, NULL, NULL, NULL, NULL);
   ola::UniverseStore store(NULL, NULL);
-  ola::Universe *u = new ola::Universe(UNI, &store, NULL, &clock);
-  vector<HPort*> ports;
-  vector<HOut*> outs;
-  for (unsigned int i = 0; i < NOBJ; i++) {
-    ports.push_back(new HPort(i, &pa));
-    outs.push_back(new HOut(i));
+  ola::Universe *us[2];
+  vector<HPort*> ports[2];
+  vector<HOut*> outs[2];
+  for (unsigned int x = 0; x < 2; x++) {
+    us[x] = new ola::Universe(UNIS[x], &store, NULL, &clock);
+    for (unsigned int i = 0; i < NOBJ; i++) {
+      ports[x].push_back(new HPort(i, &pa));
+      outs[x].push_back(new HOut(i, UNIS[x]));
+    }
   }
   // the universe keeps clients in containers ordered by address: one block, ascending ids
-  void *raw = operator new(NOBJ * sizeof(HClient));
-  HClient *clients = static_cast<HClient*>(raw);
-  for (unsigned int i = 0; i < NOBJ; i++) new (&clients[i]) HClient(i);
+  size_t stride = std::max(sizeof(HClient), sizeof(ola::Client));
+  stride = (stride + 15) / 16 * 16;
+  char *raw = static_cast<char*>(operator new(NOBJ * stride));
+  ola::Client *clients[NOBJ];
+  DeferredStub *stubs[NOBJ];
+  for (unsigned int i = 0; i < NOBJ; i++) {
+    stubs[i] = NULL;
+    if (real_clients) {
+      stubs[i] = new DeferredStub(i);   // owned by the client
+      clients[i] = new (raw + i * stride) ola::Client(stubs[i], ola::rdm::UID(0, i));
+    } else {
+      clients[i] = new (raw + i * stride) HClient(i);
+    }
+  }
 
   std::ostringstream out;
   // defaults of a fresh universe and a fresh input port
-  out << "init=" << (u->MergeMode() == ola::Universe::MERGE_LTP ? 1 : 0) << "/"
-      << static_cast<int>(u->ActivePriority()) << "/" << static_cast<int>(ports[0]->GetPriority()) << "/"
-      << (ports[0]->GetPriorityMode() == ola::PRIORITY_MODE_INHERIT ? 1 : 0) << "/"
-      << static_cast<int>(ports[0]->InheritedPriority()) << "/"
-      << (ports[0]->PriorityCapability() == ola::CAPABILITY_FULL ? 1 : 0) << ";";
-  vector<string> toks = vh::split(payload);
+  out << "init=" << (us[0]->MergeMode() == ola::Universe::MERGE_LTP ? 1 : 0) << "/"
+      << static_cast<int>(us[0]->ActivePriority()) << "/" << static_cast<int>(ports[0][0]->GetPriority()) << "/"
+      << (ports[0][0]->GetPriorityMode() == ola::PRIORITY_MODE_INHERIT ? 1 : 0) << "/"
+      << static_cast<int>(ports[0][0]->InheritedPriority()) << "/"
+      << (ports[0][0]->PriorityCapability() == ola::CAPABILITY_FULL ? 1 : 0) << ";";
   unsigned int k = 0;
   for (size_t t = 0; t < toks.size(); t++) {
-    if (toks[t].empty()) continue;
-    vector<string> f = vh::split(toks[t], ',');
+    if (toks[t].empty() || toks[t] == "rc") continue;
+    unsigned int x = 0;
+    string tok = toks[t];
+    if (tok[0] == '@') { x = 1; tok = tok.substr(1); }
+    ola::Universe *u = us[x];
+    const unsigned int UNI = UNIS[x];
+    vector<string> f = vh::split(tok, ',');
     const string &op = f[0];
     unsigned int id = f.size() > 1 ? vh::num(f[1]) % NOBJ : 0;
+    HPort *port = ports[x][id];
+    HOut *outp = outs[x][id];
+    ola::Client *client = clients[id];
     g_events.clear();
     if (op == "pd") {
       wake = ts_of(vh::num(f[3]));
       clock.now = ts_of(vh::num(f[4]));
-      set_buf(&ports[id]->buf, vh::unhex(f[2]));
-      ports[id]->DmxChanged();
+      set_buf(&port->buf, vh::unhex(f[2]));
+      port->DmxChanged();
     } else if (op == "pc") {
       clock.now = ts_of(vh::num(f[2]));
-      u->PortDataChanged(ports[id]);
+      u->PortDataChanged(port);
     } else if (op == "cd") {
       clock.now = ts_of(vh::num(f[5]));
       DmxBuffer b;
       set_buf(&b, vh::unhex(f[2]));
       ola::DmxSource src(b, ts_of(vh::num(f[4])), static_cast<uint8_t>(vh::num(f[3])));
-      clients[id].DMXReceived(UNI, src);
-      u->SourceClientDataChanged(&clients[id]);
+      client->DMXReceived(UNI, src);
+      u->SourceClientDataChanged(client);
     } else if (op == "cc") {
       clock.now = ts_of(vh::num(f[2]));
-      u->SourceClientDataChanged(&clients[id]);
+      u->SourceClientDataChanged(client);
     } else if (op == "mode") {
       u->SetMergeMode(f[1] == "1" ? ola::Universe::MERGE_LTP : ola::Universe::MERGE_HTP);
     } else if (op == "ai") {
       // what PortManager does when patching
-      u->AddPort(static_cast<ola::InputPort*>(ports[id]));
-      ports[id]->SetUniverse(u);
+      u->AddPort(static_cast<ola::InputPort*>(port));
+      port->SetUniverse(u);
     } else if (op == "ri") {
-      u->RemovePort(static_cast<ola::InputPort*>(ports[id]));
-      ports[id]->SetUniverse(NULL);
+      u->RemovePort(static_cast<ola::InputPort*>(port));
+      port->SetUniverse(NULL);
     } else if (op == "as") {
-      u->AddSourceClient(&clients[id]);
+      u->AddSourceClient(client);
     } else if (op == "rs") {
-      u->RemoveSourceClient(&clients[id]);
+      u->RemoveSourceClient(client);
     } else if (op == "cl") {
       u->CleanStaleSourceClients();
     } else if (op == "wr") {
-      outs[id]->ret = f[2] == "1";
+      outp->ret = f[2] == "1";
     } else if (op == "sr") {
-      clients[id].ret = f[2] == "1";
+      if (!real_clients) static_cast<HClient*>(client)->ret = f[2] == "1";
+    } else if (op == "ack") {
+      if (real_clients) stubs[id]->Deliver(vh::num(f[2]));
     } else if (op == "co") {
       DmxBuffer b;
       set_buf(&b, vh::unhex(f[2]));
       ola::DmxSource src(b, ts_of(vh::num(f[4])), static_cast<uint8_t>(vh::num(f[3])));
-      clients[id].DMXReceived(UNI + 1 + (id % 3), src);
+      client->DMXReceived(OTHER_UNI + (id % 3), src);
     } else if (op == "sd") {
       DmxBuffer b;
       set_buf(&b, vh::unhex(f[1]));
       u->SetDMX(b);
     } else if (op == "ao") {
-      u->AddPort(static_cast<ola::OutputPort*>(outs[id]));
+      u->AddPort(static_cast<ola::OutputPort*>(outp));
     } else if (op == "ro") {
-      u->RemovePort(static_cast<ola::OutputPort*>(outs[id]));
+      u->RemovePort(static_cast<ola::OutputPort*>(outp));
     } else if (op == "ak") {
-      u->AddSinkClient(&clients[id]);
+      u->AddSinkClient(client);
     } else if (op == "rk") {
-      u->RemoveSinkClient(&clients[id]);
+      u->RemoveSinkClient(client);
     } else if (op == "pp") {
-      ports[id]->SetPriority(static_cast<uint8_t>(vh::num(f[2])));
+      port->SetPriority(static_cast<uint8_t>(vh::num(f[2])));
     } else if (op == "pm") {
-      ports[id]->SetPriorityMode(f[2] == "1" ? ola::PRIORITY_MODE_INHERIT : ola::PRIORITY_MODE_STATIC);
+      port->SetPriorityMode(f[2] == "1" ? ola::PRIORITY_MODE_INHERIT : ola::PRIORITY_MODE_STATIC);
     } else if (op == "ph") {
-      ports[id]->inherited = static_cast<uint8_t>(vh::num(f[2]));
+      port->inherited = static_cast<uint8_t>(vh::num(f[2]));
     } else if (op == "pk") {
-      ports[id]->caps = f[2] == "1";
+      port->caps = f[2] == "1";
     } else {
       out << "badop" << k << "=" << op << ";";
     }
     string cur = u->GetDMX().Get();
-    out << "b" << k << "=" << vh::hex(cur) << ";p" << k << "=" << static_cast<int>(u->ActivePriority())
-        << ";e" << k << "=";
+    out << "b" << k << "=" << vh::hex(cur) << ";";
+    if (two) out << "bo" << k << "=" << vh::hex(us[1 - x]->GetDMX().Get()) << ";";
+    out << "p" << k << "=" << static_cast<int>(u->ActivePriority()) << ";e" << k << "=";
     if (g_events.empty()) out << "-";
     for (size_t i = 0; i < g_events.size(); i++) {
       const Ev &e = g_events[i];
       if (i) out << ",";
       out << e.kind << e.who << ":" << (e.data == cur ? string("=") : vh::hex(e.data)) << ":" << e.prio;
-      if (e.bad_uni) out << "!uni";
+      if (e.uni != UNI) out << "!uni" << e.uni;
     }
     out << ";m" << k << "=";
     vector<ola::InputPort*> ips;
@@ -260,8 +318,8 @@ static string handle(const string &payload) {
     out << "/";
     bool first = true;
     for (unsigned int i = 0; i < NOBJ; i++)
-      if (u->ContainsSourceClient(&clients[i])) {
-        out << (first ? "" : ".") << i << (u->m_source_clients[&clients[i]] ? "*" : "");
+      if (u->ContainsSourceClient(clients[i])) {
+        out << (first ? "" : ".") << i << (u->m_source_clients[clients[i]] ? "*" : "");
         first = false;
       }
     out << "/";
@@ -271,16 +329,21 @@ static string handle(const string &payload) {
     out << "/";
     first = true;
     for (unsigned int i = 0; i < NOBJ; i++)
-      if (u->ContainsSinkClient(&clients[i])) { out << (first ? "" : ".") << i; first = false; }
+      if (u->ContainsSinkClient(clients[i])) { out << (first ? "" : ".") << i; first = false; }
     out << ";";
     k++;
   }
-  delete u;
-  for (unsigned int i = 0; i < NOBJ; i++) {
-    delete ports[i];
-    delete outs[i];
-    clients[i].~HClient();
+  // acks that never arrived: complete them now so that the RPC objects are released
+  for (unsigned int i = 0; i < NOBJ; i++)
+    if (stubs[i]) stubs[i]->Deliver(0);
+  for (unsigned int x = 0; x < 2; x++) {
+    delete us[x];
+    for (unsigned int i = 0; i < NOBJ; i++) {
+      delete ports[x][i];
+      delete outs[x][i];
+    }
   }
+  for (unsigned int i = 0; i < NOBJ; i++) clients[i]->~Client();
   operator delete(raw);
   string r = out.str();
   if (!r.empty() && r[r.size() - 1] == ';') r.erase(r.size() - 1);
